@@ -35,6 +35,8 @@ func main() {
 		cmdSSA(os.Args[2:])
 	case "check":
 		os.Exit(cmdCheck(os.Args[2:]))
+	case "replay":
+		os.Exit(cmdReplay(os.Args[2:]))
 	default:
 		fmt.Println("unknown command")
 		os.Exit(2)
